@@ -131,6 +131,17 @@ class SpecGen:
                     out += self.switch('attr', v[1]) + bytes([v[2]])
                     firstv = next(x for x in vals if x[1] == v[1] and x[2] == v[2])
                     value += bytes.fromhex(firstv[0])
+                elif k < 0.45 and lid in WML_LANGS:
+                    # a WML variable reference inside the value; the grammar allows a switchPage in front of an
+                    # extension (extension = [switchPage] ...), which only changes the attribute code page
+                    tok = rng.choice([0x40, 0x41, 0x42, 0x80, 0x81, 0x82])
+                    suffix = {0: b':escape', 1: b':unesc', 2: b':noesc'}[tok & 3]
+                    var = rng.choice([b'v', b'name', b'X1'])
+                    if rng.random() < 0.5:
+                        pages = sorted({x[2] for x in attrs}) if attrs else [0]
+                        out += self.switch('attr', rng.choice(pages), force=True)
+                    out += (bytes([tok]) + var + b'\x00') if tok < 0x80 else (bytes([tok]) + mb(self.strref(var)))
+                    value += b'$(' + var + suffix + b')'
                 elif k < 0.8:
                     s = self.text()
                     out += self.string(s)
@@ -243,6 +254,12 @@ class SpecGen:
             return b'\xC3' + mb(n) + raw, ['CH ' + hx(raw)]
         if r < 0.88:
             exts = self.rows('exts')
+            if lid in WV_LANGS and exts and not self.todo_exts and rng.random() < 0.2:
+                # a value that is no row of the extension table carries no text - in particular one that is
+                # wider than a token octet and whose low octet happens to be a row
+                known = {x[1] for x in exts}
+                v = rng.choice([0x100 + rng.choice(sorted(known)), 0x4000 + rng.choice(sorted(known)), rng.choice([k for k in range(1, 256) if k not in known] or [0x1FF])])
+                return b'\x80' + mb(v), []
             if lid in WV_LANGS and exts:
                 e = rng.choice(exts) if not self.todo_exts else self.todo_exts.pop()
                 self.hits.add(('ext', lid, e[1]))
@@ -252,11 +269,13 @@ class SpecGen:
                 tok = rng.choice([0x40, 0x41, 0x42, 0x80, 0x81, 0x82, 0xC0, 0xC1, 0xC2])
                 suffix = {0: b':escape', 1: b':unesc', 2: b':noesc'}[tok & 3]
                 var = rng.choice([b'v', b'name', b'X1'])
+                tags_ = self.rows('tags')
+                sw = self.switch('tag', rng.choice(sorted({x[1] for x in tags_})), force=True) if rng.random() < 0.3 else b''
                 if tok < 0x80:
-                    return bytes([tok]) + var + b'\x00', ['CH ' + hx(b'$(' + var + suffix + b')')]
+                    return sw + bytes([tok]) + var + b'\x00', ['CH ' + hx(b'$(' + var + suffix + b')')]
                 if tok < 0xC0:
-                    return bytes([tok]) + mb(self.strref(var)), ['CH ' + hx(b'$(' + var + suffix + b')')]
-                return bytes([tok]), []
+                    return sw + bytes([tok]) + mb(self.strref(var)), ['CH ' + hx(b'$(' + var + suffix + b')')]
+                return sw + bytes([tok]), []
             s = self.text()
             return self.string(s), ['CH ' + hx(s)]
         if r < 0.93 and self.rows('attrs') is not None:
